@@ -167,6 +167,23 @@ def regen_facts():
     return True, ""
 
 
+RELAY = os.path.join(BUILD, "relay")
+
+
+def build_relay():
+    """the relay binary itself, built with -tags verif from /repo's working tree (used for config interpolation)"""
+    d = os.path.join(REPO, "cmd", "carbon-relay-ng")
+
+    def b():
+        tmp = RELAY + ".new%d" % os.getpid()
+        rc, so, se = run(["go", "build", "-tags", "verif", "-o", tmp, "."], cwd=d, env=GOENV, timeout=900)
+        if rc != 0:
+            return False, so + se
+        os.replace(tmp, RELAY)
+        return True, ""
+    return cached_build([REPO], "relay.stamp", RELAY, b)
+
+
 def build_harness():
     """always reflects /repo's current working tree: rebuilt whenever any Go source of /repo or the harness changed"""
     d = os.path.join(VERIF, "harness")
@@ -248,7 +265,7 @@ def split_cases(text):
 
 
 def run_side(binary, args, inp, timeout):
-    env = dict(os.environ, GOMEMLIMIT="4GiB", GOTRACEBACK="single")
+    env = dict(os.environ, GOMEMLIMIT="4GiB", GOTRACEBACK="single", CRNG_RELAY_BIN=RELAY)
     rc, so, se = run([binary] + args, inp=inp.encode(), timeout=timeout, env=env)
     return rc, so, se
 
